@@ -231,7 +231,7 @@ structure Evolves (bp : NodeId → Prop) (s s' : Storage) : Prop where
   maps : s'.maps = s.maps
   node : ∀ q r, alookup s.derived q = some r → ∃ r', alookup s'.derived q = some r' ∧
     (r' = r ∨ (bp q ∧ r.tv < s.epoch ∧ r'.tv = s.epoch ∧
-      ((r'.val = r.val ∧ r'.tu = r.tu) ∨ (r.deps ≠ [] ∧ r.tv < r'.tu))))
+      ((r'.val = r.val ∧ r'.tu = r.tu) ∨ (r.deps ≠ [] ∧ r.tv < r'.tu ∧ r'.val ≠ r.val))))
   born : ∀ q, alookup s.derived q = none → (alookup s'.derived q).isSome = true → bp q
 
 theorem Evolves.refl (bp : NodeId → Prop) (s : Storage) : Evolves bp s s :=
@@ -283,7 +283,7 @@ theorem DepFor.evolves {bp : NodeId → Prop} {s s' : Storage} {r : Rev} {rd : R
       · intro _; rw [htv']; exact htv
     · rcases hc with rfl | ⟨_, hlt, htv', hcase⟩
       · exact hval
-      · rcases hcase with ⟨hv, htu⟩ | ⟨hne, hgt⟩
+      · rcases hcase with ⟨hv, htu⟩ | ⟨hne, hgt, _⟩
         · intro hle; rw [hv]; exact hval (by rw [← htu]; exact hle)
         · intro hle
           have := hmono hne
